@@ -119,6 +119,14 @@ theorem chunk_total (b : List UInt8) : NoPanic (decodeChunk b) := by
     | apply noPanic_needBytes (by omega)
     | (apply noPanic_need (by simp only [decide_eq_true_eq]; omega)))
 
+/-- C03 (length): slices shorter than 28 bytes or not a multiple of 4 are rejected as incomplete. -/
+theorem chunk_len (b : List UInt8) (h : b.length < 28 ∨ b.length % 4 ≠ 0) :
+    decodeChunk b = .err .incompleteSlice := by
+  unfold decodeChunk
+  rcases h with h | h
+  · simp [h]
+  · by_cases h' : b.length < 28 <;> simp [h, h']
+
 /-- Accepted payload lengths: 1..=65535, and the slice is header + payload + padding to a
 multiple of 4 + trailer. -/
 theorem chunk_payload_len (b : List UInt8) (c : Chunk) (h : decodeChunk b = .ok c) :
